@@ -76,7 +76,7 @@ inductive Meth (α : Type) where
   | malloc (n : Int) | mallocLen | flush | mallocAck (n : Int) | appendW | writeString (p : List α)
   | writeBinary (p : List α) | writeDirect (p : List α) (remain : Int) | writeByte (a : α) | write (p : List α)
   -- Connection
-  | isActive | close
+  | isActive | close | detach
 deriving Repr
 
 /-- one method call on the connection. -/
@@ -155,11 +155,22 @@ def CC.call [DecidableEq α] (cfg : Cfg) (c : CC α) : Meth α → CC α × Out 
   | .close =>
     -- onClose: closeBy(user) or force(closing,user); closeCallback(true, …) runs the finalizer if nobody did
     ({ c.teardown with closing := 1 }, .ok .unit)
+  | .detach =>
+    -- Detach: `detaching = 1; onClose()` - the same path (the finalizer only skips closing the descriptor)
+    ({ c.teardown with closing := 1 }, .ok .unit)
 
 /-- how a live connection is closed (C12's close modes) -/
 inductive Mode where
   | user | peer | peerThenUser | detach
+  -- through an OnRequest handler task (`onProcess`): the handler calls Close and returns / calls Close and panics; the peer
+  -- closes while the handler runs and it returns / it then panics; the handler panics on the still active connection
+  | hUser | hUserPanic | hPeer | hPeerPanic | hPanic
 deriving Repr, DecidableEq
+
+/-- the modes in which the close goes through a handler task -/
+def Mode.viaHandler : Mode → Bool
+  | .hUser | .hUserPanic | .hPeer | .hPeerPanic | .hPanic => true
+  | _ => false
 
 /-- the state after the close has completed. Peer close without callbacks leaves the teardown to the user. -/
 def CC.closeBy (c : CC α) : Mode → CC α
@@ -169,5 +180,12 @@ def CC.closeBy (c : CC α) : Mode → CC α
   | .peerThenUser =>
     let c1 : CC α := if c.cb then { c.teardown with closing := 2 } else { c with closing := 2 }
     { c1.teardown with closing := 1 }
+  -- onProcess: the task holds the `processing` lock; a Close / hang-up meanwhile only sets `closing` (its closeCallback(true,…)
+  -- fails to take the lock); the task runs the close callbacks itself when it ends - after the loop (`closedBy != none`:
+  -- closeCallback(false, …)) or, when the handler panicked, in its deferred function: still holding the lock if the
+  -- connection is already closed, else `unlock(processing); Close()` (which takes it again).  In every case the finalizer
+  -- has run exactly once and the lock stays taken, so no later Close/Detach runs it again.
+  | .hUser | .hUserPanic | .hPanic => { c.teardown with closing := 1 }
+  | .hPeer | .hPeerPanic => { c.teardown with closing := 2 }
 
 end Netpoll.Conn.Closed
